@@ -76,7 +76,7 @@ public:
 	\param name File name optionally including path
 	\param mode Access mode: READ, WRITE, APPEND, RW (read+write)
 	*/
-	ASL_EXPLICIT File(const String& name, OpenMode mode) : _path(name), _endian(ENDIAN_NATIVE)
+	ASL_EXPLICIT File(const String& name, OpenMode mode) : _file(0), _path(name), _endian(ENDIAN_NATIVE)
 	{
 		open(name, mode);
 	}
